@@ -551,5 +551,5 @@ func replay(su Suite, scs []Scenario, path string) int {
 		return 0
 	}
 	fmt.Println("scenario not found:", doc.First.Replay.Scenario)
-	return 2
+	return 3
 }
